@@ -47,7 +47,7 @@ type ruleT struct {
 	sets      [][]string
 }
 
-func symRule(tag string, members []string, nonneg bool) ruleT {
+func symRule(tag string, members []string, nonneg bool, maxSets int) ruleT {
 	r := ruleT{w: map[string]float64{}}
 	r.threshold = vrt.Choice(tag+"-kind", 2) == 0
 	if r.threshold {
@@ -61,7 +61,7 @@ func symRule(tag string, members []string, nonneg bool) ruleT {
 		r.accept = vrt.Dyadic(tag+"-accept", 2, 8)
 		return r
 	}
-	nsets := vrt.Choice(tag+"-nsets", 3) // 0..2 sets
+	nsets := vrt.Choice(tag+"-nsets", maxSets+1) // 0..maxSets sets
 	for s := 0; s < nsets; s++ {
 		var set []string
 		for _, mname := range members {
@@ -153,9 +153,9 @@ func pick(k int) []string {
 }
 
 // verifEval: IdentifyAccount == specification, for symbolic weights / thresholds.
-func verifEval(maxSigners int) {
-	rx := symRule("X", xMembers, false)
-	ry := symRule("Y", yMembers, false)
+func verifEval(maxSigners, maxSets int) {
+	rx := symRule("X", xMembers, false, maxSets)
+	ry := symRule("Y", yMembers, false, maxSets)
 	m := &mgr{acl: map[string]*pb.Acl{X: rx.acl(), Y: ry.acl()}}
 	signers := pick(vrt.Choice("k", maxSigners+1))
 	got, err := aclu.IdentifyAccount(m, X, signers)
@@ -167,9 +167,9 @@ func verifEval(maxSigners int) {
 }
 
 // verifMonotone: with non-negative weights, adding a signer never turns acceptance into rejection.
-func verifMonotone(maxSigners int) {
-	rx := symRule("X", xMembers, true)
-	ry := symRule("Y", yMembers, true)
+func verifMonotone(maxSigners, maxSets int) {
+	rx := symRule("X", xMembers, true, maxSets)
+	ry := symRule("Y", yMembers, true, maxSets)
 	m := &mgr{acl: map[string]*pb.Acl{X: rx.acl(), Y: ry.acl()}}
 	signers := pick(vrt.Choice("k", maxSigners+1))
 	extra := universe[vrt.Choice("extra", len(universe))]
@@ -180,7 +180,8 @@ func verifMonotone(maxSigners int) {
 	vrt.Assert(!got1 || got2, "adding-a-signer-never-rejects")
 }
 
-func VerifC11EvalQuick()        { verifEval(2) }
-func VerifC11EvalThorough()     { verifEval(3) }
-func VerifC11MonotoneQuick()    { verifMonotone(1) }
-func VerifC11MonotoneThorough() { verifMonotone(2) }
+func VerifC11EvalQuick()        { verifEval(2, 1) }
+func VerifC11EvalThorough()     { verifEval(2, 2) }
+func VerifC11EvalDeep()         { verifEval(3, 1) }
+func VerifC11MonotoneQuick()    { verifMonotone(1, 1) }
+func VerifC11MonotoneThorough() { verifMonotone(1, 2) }
